@@ -1527,7 +1527,10 @@ class _Rng:
         n = 1 if size is None else builtins.int(size)
         out = []
         for _ in range(n):
-            out.append(E.uf("rng_normal", builtins.float(self.seed if self.seed is not None else -1), builtins.float(self.k)))
+            v = E.uf("rng_normal", builtins.float(self.seed if self.seed is not None else -1), builtins.float(self.k))
+            if getattr(E, "rng_nonzero", False):
+                E.assume(v != 0)  # a normal variate is non-zero (probability-one event; stated by the harness that sets it)
+            out.append(v)
             self.k += 1
         return out[0] if size is None else ndarray.of(out)
 
